@@ -78,6 +78,16 @@ CHECKS = {
         note="rules are discovered by AST-scanning Simplifier._simplify and wrapped at run time (exit 2 if the seam disappears); "
              "division, strings and dates are outside the alphabet. " + TRUST + "; DuckDB 1.5.5 validates the evaluator",
         design="2/C06"),
+    "C07": dict(
+        category="exploration", engine="E1",
+        technique="exhaustive product / all 1- and 2-option deviations of generator options over enumerated trees; re-parse equivalence oracle",
+        text="Trees parsed from the comment-carrying core grammar (k<=1, thorough k<=2 slice) per dialect, hand-written comment/newline "
+             "statements, pretty.sql and identity.sql are generated under the full 6480-combination option product (simplest trees) and "
+             "under every single- and two-option deviation from the defaults (all others); each text must re-parse in the same dialect "
+             "to the tree of the default output modulo comments / quoting flags / function-name case as the deviating options allow, "
+             "contain no line-break sentinel, and carry no comment when comments=False.",
+        note="trees whose default output does not re-parse to the same tree are C01's business and skipped here. " + TRUST,
+        design="2/C07"),
     "C08": dict(
         category="model_checking", engine="E2",
         technique="explicit-state BFS over histories of public tree operations on real Expression trees, invariants checked in every state",
